@@ -31,7 +31,7 @@
    words separated by LWS, or a quoted string (escapes; commas inside do not split) followed by more words, then "<" uri ">",
    with or without the general parameter part: the name is reported from its first byte up to the "<", the URI without the
    brackets, the whole-value span from the first byte of the name.
-   The Contact list with such values (ContactGen.v, C09_contact_list_general_values): value *( [LWS] "," value ) blanks end-of-line,
+   The Contact list with such values (ContactGen.v, C09_contact_list_general_values): [LWS] value *( [LWS] "," [LWS] value ) blanks end-of-line (bare URIs too),
    any offset, fresh list of any capacity: every value counted (also those that do not fit), value j = what the value parser
    reports for text j at its own offset, the header-value span runs from the first byte of the first value to the last byte
    of the last one; commas inside quoted strings do not split.
@@ -326,55 +326,68 @@ Theorem C09_contact_list_general_values : forall gs (junk sp : list byte) x tail
             = Done (gl_end i gs + nnat (length sp) + 2) EOk C /\
     ct_n C = nnat (length gs) /\
     (forall j, (j < length gs)%nat -> (j < n)%nat -> nth j (ct_vals C) pfrom0 = nth j vs pfrom0) /\
-    ct_lasthval C = mkpf i (gl_end i gs - i).
+    ct_lasthval C = mkpf (gl_start i gs) (gl_end i gs - gl_start i gs).
 Proof. exact contact_general_list_spec. Qed.
 (* the values it covers: any display part + bracketed URI, with or without the general parameter part *)
-Theorem C09_general_values_are_covered : forall D uri g L t, disp D -> Forall uchar uri -> gap 0 g ->
-  gv_ok (gv_plain D uri g) /\ (Forall t_ok L -> t_ok t -> gv_ok (gv_params D uri g L t)).
-Proof. intros D uri g L t HD Hu Hg. split; [apply gv_plain_ok; assumption|intros HL Ht; apply gv_params_ok; assumption]. Qed.
-Theorem C09_bare_values_are_covered : forall n0 name g L t, nchar0 n0 -> Forall nchar name -> gap 0 g ->
-  gv_ok (gv_bare n0 name g) /\ (Forall t_ok L -> t_ok t -> gv_ok (gv_bare_params n0 name g L t)).
-Proof. intros n0 name g L t H0 H1 Hg. split; [apply gv_bare_ok; assumption|intros HL Ht; apply gv_bare_params_ok; assumption]. Qed.
-Theorem C09_bare_value_means : forall n0 name g L t i0,
-  gv_x (gv_bare n0 name g) = n0 :: name /\ gv_g (gv_bare n0 name g) = g /\ gv_v (gv_bare n0 name g) i0 = fB HdrContact i0 (nnat (length (n0 :: name))) /\
-  gv_x (gv_bare_params n0 name g L t) = headB n0 name g ++ its_bytes L ++ t_body t /\ gv_g (gv_bare_params n0 name g L t) = t_g4 t /\
-  gv_v (gv_bare_params n0 name g L t) i0 =
-    (let i := i0 + nnat (length (headB n0 name g)) in let j := i + nnat (length (its_bytes L)) in
-     finW HdrContact (t_d j t) (t_apply true j t (its_state true i L (bB i0 (nnat (length (n0 :: name))) g)))).
-Proof. intros. repeat split; reflexivity. Qed.
+Theorem C09_general_values_are_covered : forall l D uri g L t, gap 0 l -> disp D -> Forall uchar uri -> gap 0 g ->
+  gv_ok (gv_plain l D uri g) /\ (Forall t_ok L -> t_ok t -> gv_ok (gv_params l D uri g L t)).
+Proof. intros l D uri g L t Hl HD Hu Hg. split; [apply gv_plain_ok; assumption|intros HL Ht; apply gv_params_ok; assumption]. Qed.
+Theorem C09_bare_values_are_covered : forall l n0 name g L t, gap 0 l -> nchar0 n0 -> Forall nchar name -> gap 0 g ->
+  gv_ok (gv_bare l n0 name g) /\ (Forall t_ok L -> t_ok t -> gv_ok (gv_bare_params l n0 name g L t)).
+Proof. intros l n0 name g L t Hl H0 H1 Hg. split; [apply gv_bare_ok; assumption|intros HL Ht; apply gv_bare_params_ok; assumption]. Qed.
+(* a value: white space in front (skipped), the text, white space before the comma (given back); it is reported at the offset of its text *)
 Theorem C09_general_list_means : forall g g2 gs sp i,
-  gl_text [g] sp = gv_x g ++ sp /\ gl_text (g :: g2 :: gs) sp = gv_x g ++ gv_g g ++ [(44 : byte)] ++ gl_text (g2 :: gs) sp /\
-  gl_vals i [g] = [gv_v g i] /\ gl_vals i (g :: g2 :: gs) = gv_v g i :: gl_vals (i + nnat (length (gv_x g ++ gv_g g ++ [(44 : byte)]))) (g2 :: gs) /\
-  gl_end i [g] = i + nnat (length (gv_x g)) /\ gl_end i (g :: g2 :: gs) = gl_end (i + nnat (length (gv_x g ++ gv_g g ++ [(44 : byte)]))) (g2 :: gs).
-Proof. intros. cbn [gl_text gl_vals gl_end]. unfold gv_step. rewrite <- !app_assoc. repeat split; reflexivity. Qed.
-Theorem C09_general_value_means : forall D uri g L t i0,
-  gv_x (gv_plain D uri g) = bhead D uri /\ gv_g (gv_plain D uri g) = g /\
-  gv_v (gv_plain D uri g) i0 = fD HdrContact (dname i0 D) i0 (i0 + nnat (length D) + 1) (nnat (length uri)) /\
-  gv_x (gv_params D uri g L t) = bhead D uri ++ g ++ (59 : byte) :: its_bytes L ++ t_body t /\ gv_g (gv_params D uri g L t) = t_g4 t /\
-  gv_v (gv_params D uri g L t) i0 =
+  gl_text [g] sp = gv_l g ++ gv_x g ++ sp /\ gl_text (g :: g2 :: gs) sp = gv_l g ++ gv_x g ++ gv_g g ++ [(44 : byte)] ++ gl_text (g2 :: gs) sp /\
+  gl_vals i [g] = [gv_v g (i + nnat (length (gv_l g)))] /\
+  gl_vals i (g :: g2 :: gs) = gv_v g (i + nnat (length (gv_l g))) :: gl_vals (i + nnat (length (gv_l g ++ gv_x g ++ gv_g g ++ [(44 : byte)]))) (g2 :: gs) /\
+  gl_end i [g] = i + nnat (length (gv_l g)) + nnat (length (gv_x g)) /\
+  gl_end i (g :: g2 :: gs) = gl_end (i + nnat (length (gv_l g ++ gv_x g ++ gv_g g ++ [(44 : byte)]))) (g2 :: gs) /\
+  gl_start i (g :: gs) = i + nnat (length (gv_l g)).
+Proof. intros. cbn [gl_text gl_vals gl_end gl_start]. unfold gv_step, gv_at. rewrite <- !app_assoc. repeat split; reflexivity. Qed.
+Theorem C09_general_value_means : forall l D uri g L t i0,
+  gv_l (gv_plain l D uri g) = l /\ gv_x (gv_plain l D uri g) = bhead D uri /\ gv_g (gv_plain l D uri g) = g /\
+  gv_v (gv_plain l D uri g) i0 = fD HdrContact (dname i0 D) i0 (i0 + nnat (length D) + 1) (nnat (length uri)) /\
+  gv_l (gv_params l D uri g L t) = l /\ gv_x (gv_params l D uri g L t) = bhead D uri ++ g ++ (59 : byte) :: its_bytes L ++ t_body t /\ gv_g (gv_params l D uri g L t) = t_g4 t /\
+  gv_v (gv_params l D uri g L t) i0 =
     (let us := i0 + nnat (length D) + 1 in let lu := nnat (length uri) in
      let i := us + lu + 1 + nnat (length g) + 1 in let j := i + nnat (length (its_bytes L)) in
      finW HdrContact (t_d j t) (t_apply false j t (its_state false i L (bD (dname i0 D) i0 us lu)))).
 Proof. intros. repeat split; reflexivity. Qed.
-(* satisfiable and evaluated: C:"A,B" <s:a>;q=1 ,<s:b> CR LF at offset 2 into an array of one: two values counted, the first stored,
-   the comma inside the quotes does not split, the header-value span runs from the first quote to the last ">" *)
+Theorem C09_bare_value_means : forall l n0 name g L t i0,
+  gv_l (gv_bare l n0 name g) = l /\ gv_x (gv_bare l n0 name g) = n0 :: name /\ gv_g (gv_bare l n0 name g) = g /\ gv_v (gv_bare l n0 name g) i0 = fB HdrContact i0 (nnat (length (n0 :: name))) /\
+  gv_l (gv_bare_params l n0 name g L t) = l /\ gv_x (gv_bare_params l n0 name g L t) = headB n0 name g ++ its_bytes L ++ t_body t /\ gv_g (gv_bare_params l n0 name g L t) = t_g4 t /\
+  gv_v (gv_bare_params l n0 name g L t) i0 =
+    (let i := i0 + nnat (length (headB n0 name g)) in let j := i + nnat (length (its_bytes L)) in
+     finW HdrContact (t_d j t) (t_apply true j t (its_state true i L (bB i0 (nnat (length (n0 :: name))) g)))).
+Proof. intros. repeat split; reflexivity. Qed.
+(* satisfiable and evaluated: C:"A,B" <s:a>;q=1 , <s:b>,s:c CR LF at offset 2 into an array of one: three values counted, the first
+   stored, the comma inside the quotes does not split, the white space after the comma is skipped, the header-value span runs from
+   the first quote to the last byte of the bare URI *)
+Definition c09_ex_D1 : list byte := (34 : byte) :: [65;44;66] ++ (34 : byte) :: [32].
+Definition c09_ex_t : pit := mkpit [] [113] (Some ([], [], [49])) [32].
+Definition c09_ex_gs : list gval := [gv_params [] c09_ex_D1 [115;58;97] [] [] c09_ex_t; gv_plain [32] [] [115;58;98] []; gv_bare [] 115 [58;99] []].
 Example C09_general_list_example :
-  let D1 := (34 : byte) :: [65;44;66] ++ (34 : byte) :: [32] in let t := mkpit [] [113] (Some ([], [], [49])) [32] in
-  let gs := [gv_params D1 [115;58;97] [] [] t; gv_plain [] [115;58;98] []] in
-  Forall gv_ok gs /\
-  [67;58] ++ gl_text gs [] ++ CR :: LF :: [65] = [67;58; 34;65;44;66;34; 32; 60;115;58;97;62; 59; 113;61;49; 32; 44; 60;115;58;98;62; 13;10; 65] /\
-  gl_end 2 gs = 24 /\
-  gl_vals 2 gs = [mkpfrom (mkpf 2 6) (mkpf 9 3) pf0 false false false HdrContact 1000 0 (mkpf 14 3) (mkpf 2 15) EOk 0 FbFIN 0 0 0 0 0;
-                  mkpfrom pf0 (mkpf 20 3) pf0 false false false HdrContact 0 0 pf0 (mkpf 19 5) EOk 0 FbFIN 0 0 0 0 0].
+  Forall gv_ok c09_ex_gs /\
+  [67;58] ++ gl_text c09_ex_gs [] ++ CR :: LF :: [65]
+  = [67;58; 34;65;44;66;34; 32; 60;115;58;97;62; 59; 113;61;49; 32; 44; 32; 60;115;58;98;62; 44; 115;58;99; 13;10; 65] /\
+  gl_start 2 c09_ex_gs = 2 /\ gl_end 2 c09_ex_gs = 29 /\
+  gl_vals 2 c09_ex_gs = [mkpfrom (mkpf 2 6) (mkpf 9 3) pf0 false false false HdrContact 1000 0 (mkpf 14 3) (mkpf 2 15) EOk 0 FbFIN 0 0 0 0 0;
+                         mkpfrom pf0 (mkpf 21 3) pf0 false false false HdrContact 0 0 pf0 (mkpf 20 5) EOk 0 FbFIN 0 0 0 0 0;
+                         mkpfrom pf0 (mkpf 26 3) pf0 false false false HdrContact 0 0 pf0 (mkpf 26 3) EOk 0 FbFIN 0 0 0 0 0] /\
+  match parse_all_contacts ([67;58] ++ gl_text c09_ex_gs [] ++ CR :: LF :: [65]) 2 (contacts_init (repeat pfrom0 1)) with
+  | Done o e C => o = 31 /\ e = EOk /\ ct_n C = 3 /\ ct_lasthval C = mkpf 2 27
+  | _ => False
+  end.
 Proof.
   assert (Ws : wsrun 0 [32]) by (apply wsrun_blanks; [discriminate|repeat constructor]).
-  cbv zeta. split; [|repeat split; vm_compute; reflexivity].
-  constructor; [|constructor; [|constructor]].
-  - apply gv_params_ok; [|repeat constructor|left; reflexivity|constructor|].
+  split; [|split; [vm_compute; reflexivity|split; [vm_compute; reflexivity|split; [vm_compute; reflexivity|split; [vm_compute; reflexivity|vm_compute; repeat split; reflexivity]]]]].
+  unfold c09_ex_gs. constructor; [|constructor; [|constructor; [|constructor]]].
+  - apply gv_params_ok; [left; reflexivity| |repeat constructor|left; reflexivity|constructor|].
     + apply (d_quoted [65;44;66] [32]); [repeat (apply fqc_plain; [discriminate|discriminate|discriminate|]); apply fqc_nil|apply nt_w; exact Ws].
-    + unfold t_ok. cbn [t_g1 t_name t_val t_g4]. split; [left; reflexivity|]. split; [exists 113, []; split; [reflexivity|split; [reflexivity|constructor]]|].
+    + unfold t_ok, c09_ex_t. cbn [t_g1 t_name t_val t_g4]. split; [left; reflexivity|]. split; [exists 113, []; split; [reflexivity|split; [reflexivity|constructor]]|].
       split; [split; [left; reflexivity|split; [left; reflexivity|apply vt_tok; [exact I|constructor]]]|right; exact Ws].
-  - apply gv_plain_ok; [constructor|repeat constructor|left; reflexivity].
+  - apply gv_plain_ok; [right; exact Ws|constructor|repeat constructor|left; reflexivity].
+  - apply gv_bare_ok; [left; reflexivity|exact I|repeat constructor|left; reflexivity].
 Qed.
 Print Assumptions C09_contact_list_general_values.
 Print Assumptions C09_general_values_are_covered.
